@@ -51,7 +51,7 @@ def bounds(tier):
 
 
 def required_regimes(tier):
-    return {'layer:1', 'layer:2', 'bp', 'colour', 'C:2', 'base:zero', 'base:const', 'base:sparse', 'base:dense', 'size:h!=w', 'smoothmag', 'smoothmag:only_y', 'mode:zero', 'input:noncontiguous', 'size:odd'}
+    return {'layer:1', 'layer:2', 'bp', 'colour', 'C:2', 'base:zero', 'base:const', 'base:sparse', 'base:dense', 'size:h!=w', 'smoothmag', 'smoothmag:only_y', 'mode:zero', 'input:noncontiguous', 'size:odd', 'cotangent:single'}
 
 
 def _bases(C, H, W):
@@ -165,6 +165,21 @@ def run(item):
         except Exception as e:
             res.violation('scat_gradient', cfg, {'kind': 'raise', 'exc': repr(e)[:200]}, tags)
             break
+        # single cotangents pulled back alone (batch of one): shortcuts that inspect a whole cotangent tensor are invisible in a batch
+        try:
+            for r in sorted({0, M // 7 if layer == 1 else M // 49, M - 1}):
+                X1 = torch.as_tensor(x0.reshape(1, C, H, W)).clone().requires_grad_(True)
+                Z1 = mod(X1)
+                c1 = torch.zeros(Z1.shape, dtype=Z1.dtype)
+                c1.reshape(-1)[r] = 1.0
+                (g1,) = torch.autograd.grad([Z1], [X1], grad_outputs=[c1])
+                if float(np.abs(g1.reshape(-1).numpy() - G[:, r]).max()) > 1e-10 * max(1.0, float(np.abs(G[:, r]).max())):
+                    res.violation('scat_gradient', dict(cfg, single_cotangent=int(r)), {'kind': 'value', 'what': 'cotangent pulled back alone differs from the same cotangent inside a batch',
+                                                                                           'maxdev': float(np.abs(g1.reshape(-1).numpy() - G[:, r]).max())}, tags)
+                    break
+            res.regime('cotangent:single')
+        except Exception as e:
+            res.violation('scat_gradient', dict(cfg, single_cotangent=True), {'kind': 'raise', 'exc': repr(e)[:200]}, tags)
         res['impl_calls'] += 5
         res['evals'] += M + 4 * P
         res.regime(kind, *tags)
